@@ -702,6 +702,11 @@ func definedOutside(v ssa.Value, l *ssaLoop) bool {
 				if definedOutside(fa.X, l) && loopWritesNothing(l) {
 					return true
 				}
+				// … or when it only stores into elements and locals and calls nothing but builtins: the field (the slice
+				// header, its length) stays what it was
+				if definedOutside(fa.X, l) && loopKeepsFields(l) {
+					return true
+				}
 			}
 		}
 	case *ssa.Convert:
@@ -711,6 +716,34 @@ func definedOutside(v ssa.Value, l *ssaLoop) bool {
 		return !l.Blocks[ins.Block()]
 	}
 	return false
+}
+
+// loopKeepsFields: the loop stores only into elements of slices / arrays and into local variables, and calls nothing
+// but builtins (append, len, copy, …): no field of any object changes.
+func loopKeepsFields(l *ssaLoop) bool {
+	for b := range l.Blocks {
+		for _, ins := range b.Instrs {
+			switch x := ins.(type) {
+			case *ssa.Store:
+				switch a := x.Addr.(type) {
+				case *ssa.IndexAddr:
+				case *ssa.Alloc:
+					if a.Heap {
+						return false
+					}
+				default:
+					return false
+				}
+			case *ssa.Call:
+				if _, ok := x.Common().Value.(*ssa.Builtin); !ok {
+					return false
+				}
+			case *ssa.MapUpdate, *ssa.Send, *ssa.Go, *ssa.Defer:
+				return false
+			}
+		}
+	}
+	return true
 }
 
 // loopWritesNothing: no store, map update, send or call (other than builtins) in the loop.
